@@ -4868,7 +4868,7 @@ def process_stale_scc(graph: Graph, ascc: SCC, manager: BuildManager) -> None:
 
 def process_stale_scc_interface(
     graph: Graph, ascc: SCC, manager: BuildManager, from_cache: set[str]
-) -> list[tuple[str, ModuleResult, str]]:
+) -> list[tuple[str, ModuleResult, str | None]]:
     """Process the modules' interfaces in one SCC from source code."""
     # First verify if all transitive dependencies are loaded in the current process.
     t0 = time.time()
@@ -4903,7 +4903,7 @@ def process_stale_scc_interface(
                 unfinished_modules.discard(id)
 
     t4 = time.time()
-    scc_result = []
+    scc_result: list[tuple[str, ModuleResult, str | None]] = []
     meta_tuples = {}
     for id in stale:
         meta_tuple = graph[id].write_cache()
@@ -4914,6 +4914,9 @@ def process_stale_scc_interface(
     for id in stale:
         meta_tuple = meta_tuples[id]
         if meta_tuple is None:
+            # No cache record was written (e.g. program text passed with -c, or the write
+            # failed). The implementations of this module still need to be processed.
+            scc_result.append((id, ModuleResult(graph[id].interface_hash.hex(), []), None))
             continue
         meta, meta_file = meta_tuple
         state = graph[id]
@@ -4937,7 +4940,7 @@ def process_stale_scc_interface(
 
 
 def process_stale_scc_implementation(
-    graph: Graph, stale: list[str], manager: BuildManager, meta_files: list[str]
+    graph: Graph, stale: list[str], manager: BuildManager, meta_files: list[str | None]
 ) -> dict[str, ModuleResult]:
     """Process implementations (top-level function/method bodies) in an SCC."""
     t0 = time.time()
@@ -4997,13 +5000,12 @@ def process_stale_scc_implementation(
                 graph[id].xpath, errors, formatter=manager.error_formatter
             )
             meta_ex.error_lines = errors
-            write_cache_meta_ex(meta_file, meta_ex, manager)
             scc_result[id] = ModuleResult(None, formatted)
-        else:
-            # If there are no errors, only write the cache, don't send anything back
-            # to the caller (as a micro-optimization).
+        # If there are no errors, only write the cache, don't send anything back
+        # to the caller (as a micro-optimization).
+        if meta_file is not None:
             write_cache_meta_ex(meta_file, meta_ex, manager)
-        manager.commit_module(meta_file)
+            manager.commit_module(meta_file)
 
     manager.add_stats(type_check_time_implementation=time.time() - t0)
     return scc_result
